@@ -2,7 +2,7 @@
 """Generates /verif/MANIFEST.json from the table below (single source of truth)."""
 import json, sys
 
-HOOK_COMMITS = ["99d9b59"]
+HOOK_COMMITS = ["99d9b59", "b32f351", "81bce45"]
 
 WALK_NOTE = ("Trusted base: the reference model refchess (validated against the published perft tables at the start "
              "of every run), the binding layer (public API only), rustc. Bounded: only the listed seeds/families/depths; "
@@ -51,6 +51,15 @@ CHECKS.update({
  "C18": dict(tech="complete enumeration of the evaluation's table domain, of walked positions, of the material lattice extremes and of terminal position x remaining depth",
    text="Every piece-square cell in both contexts and both colours, every walked position against its colour-swapped rotated image, every legal one-side material vector at best squares against a minimal opponent, and every collected mated / stalemated position at remaining depth 0..255 are evaluated on the real functions.",
    ref="DESIGN.md §4 C18", note="Extreme boards place pieces greedily on the best cells read black-box from the table part."),
+})
+
+CHECKS.update({
+ "C07": dict(tech="exhaustive enumeration of (position, depth, pool size) cases on the real search with legality / error / snapshot oracles",
+   text="Every state within 1-2 plies of 16 seeds, every collected mated / stalemated / single-move / in-check state (cap per class reported), depth 0..3 and rayon pools of 1,2,3,8,16,64 threads: each case is one real alpha_beta_search call; the answer must be a legal move of the model or the declared error, never a panic or a hang (watchdog), and the caller's board snapshot must be unchanged.",
+   ref="DESIGN.md §4 C07", note="Reduced LRU capacity hook for generators; hang = no answer within 600 s."),
+ "C08": dict(tech="exhaustive enumeration of positions x depths x search histories, each compared with a cache-free exhaustive minimax oracle",
+   text="Brand-new context: seed roots, their neighbours and small endgames at depth up to 5; reused context: ALL histories search - any move - any reply - search (two rounds in thorough) from six seeds, plus engine-vs-engine lines; every search's score and move are compared with an un-pruned, un-cached minimax over the model's moves using the engine's leaf evaluation.",
+   ref="DESIGN.md §4 C08", note="Leaf evaluation is the engine's own (C18/C06 cover it); clocks stay far from the draw threshold."),
 })
 
 NOT_YET = {}
